@@ -61,6 +61,11 @@ def main():
         i = args.index("--also")
         extra_checks = args[i + 1].split(",")
         args = args[:i] + args[i + 2:]
+    tag = ""
+    if "--tag" in args:
+        i = args.index("--tag")
+        tag = args[i + 1]
+        args = args[:i] + args[i + 2:]
     recheck = False
     if args and args[0] == "--recheck":
         recheck = True
@@ -72,7 +77,9 @@ def main():
             continue
         meta = json.load(open(os.path.join(src, "meta.json")))
         prop = meta.get("property", "")[:3]
-        variant = os.path.basename(src) if not recheck else os.path.basename(src).split("_", 1)[1]
+        variant = (tag + os.path.basename(src)) if not recheck else os.path.basename(src).split("_", 1)[1]
+        if tag:
+            meta["round"] = 2
         checks = [prop] + [c for c in (extra_checks or []) if c != prop]
         res = evaluate(src, prop, checks=checks)
         confirmed = (res.get("demo_clean_exit") == 0 and res.get("patch_applies") and not res.get("baseline_tests_missing")
